@@ -22,13 +22,13 @@ Ok(r) ==
       st == r.start
       cb == VC(Cmb(ch))
   IN /\ r.seq.d = GetChain(ch, st.d) /\ r.compose.d = r.seq.d
-     /\ r.seq.c = r.compose.c
+     /\ (HasUntyped(ch) /\ PrevTypes(st.c) # <<>>) \/ r.seq.c = r.compose.c
      /\ Has(r.seq.c, "variable") /\ Has(r.combine.c, "variable")
      /\ Contains(r.seq.c.m["variable"], LastVC(ch))
      /\ (AllTyped(ch) /\ DistinctTypes(ch)) =>
            /\ Contains(r.seq.c.m["variable"], RequiredC(st.c, ch))
            /\ Contains(r.compose.c.m["variable"], RequiredC(st.c, ch))
-     /\ ~Plain(ch) => ComposeListOk(st.c, ch, r.seq.c.m["variable"])
+     /\ (~Plain(ch) /\ ~HasUntyped(ch)) => ComposeListOk(st.c, ch, r.seq.c.m["variable"])
      /\ r.combine.d = DT([j \in 1..Len(ch) |-> Get(ch[j], st.d)])
      /\ Contains(r.combine.c.m["variable"],
                  D([x \in {"name", "dim", "combine"} |-> cb.m[x]]))
